@@ -570,6 +570,11 @@ class Sum(monoidal.Sum, Diagram):
         return sum((term.eval(contractor=contractor) for term in self.terms),
                    Tensor.zeros(Dim.upgrade(self.dom), Dim.upgrade(self.cod)))
 
+    def grad(self, var, **params):
+        """ Gradient with respect to :code:`var`, term by term. """
+        unit = Sum([], self.dom, self.cod)
+        return sum((term.grad(var, **params) for term in self.terms), unit)
+
 
 Diagram.id = Id
 Diagram.sum = Sum
